@@ -15,6 +15,7 @@ LEVEL = "exploration"
 TECHNIQUE = ('deterministic simulation, N consumer replicas: the same bytes to six parse entry points each under its own read schedule; corresponding inputs to both serializers, byte comparison')
 LEVEL_NOTE = ('sampled RDF 1.1 streams; set-like containers compared as sets')
 OPTIMIZED_EVERY = 25      # every 25th run is executed in a child interpreter started with python -O
+PBPY_EVERY = 50           # every 50th run (offset 6) is executed with protobuf's pure-Python backend
 COMPILED_EVERY = 25       # every 25th run (offset 12) is executed in a child that imports a mypyc build of the tree
 RUNS = {"quick": 32000, "thorough": 600000}
 RULE = ("(parse) the same valid RDF 1.1 bytes (real writer or reference encoder, all physical types) are handed to "
